@@ -198,6 +198,18 @@ def _records(sats, order=0):
     return a
 
 
+def _records_inside_a_wider_array(sats, order=0, hidden=(-0.3, 5.0)):
+    """The same records as a multi-field VIEW of a wider cell-state array (`state[["So", "Sw", "Sg"]]`): numpy
+    keeps the parent's item size and hides the other fields (pressure, a flag) as padding between / after the
+    saturations. What sits in the hidden fields is none of the correlation's business."""
+    names = list(ORDERS[order % len(ORDERS)])
+    wide = np.zeros(len(sats), dtype=[("pressure", "f8"), (names[0], "f8"), ("flag", "f8"), (names[1], "f8"), (names[2], "f8"), ("cell", "i8")])
+    s = np.asarray(sats, dtype=float).reshape(-1, 3)
+    wide["So"], wide["Sw"], wide["Sg"] = s[:, 0], s[:, 1], s[:, 2]
+    wide["pressure"], wide["flag"], wide["cell"] = hidden[0], hidden[1], 7
+    return wide[names]
+
+
 def judge_events(ck, desc):
     """Oracle over everything the contract logged since the last call; returns #mobile."""
     mobile = 0
@@ -327,6 +339,22 @@ def _run_case(ck, desc):
                         j_ = int(np.argmax(kv[:-1] - kv[1:]))
                         ck.violation("monotone-in-own-saturation", {"phase": kn, "across_records": True, "lower_saturation": sa_[o_[j_]].tolist(), "higher_saturation": sa_[o_[j_ + 1]].tolist(), "k": [float(kv[j_]), float(kv[j_ + 1])]}, desc)
                 ck.count("batches_sorted_by_own_saturation")
+        if kind == "records" and len(desc["sats"]) >= 1:
+            # the records as a view into a wider cell-state array (hidden fields between the saturations)
+            packed_ = _records(desc["sats"], desc.get("order", 0))
+            for hid_ in ((-0.3, 5.0), (0.0, 0.0), (1.0, -1.0)):
+                view_ = _records_inside_a_wider_array(desc["sats"], desc.get("order", 0), hid_)
+                try:
+                    rv_ = relative_permeabilities(view_, params)
+                except Exception as e:  # noqa: BLE001
+                    ck.violation("admissible-input-accepted", {"records": "multi-field view of a wider record array", "hidden_fields": list(hid_), "raised": repr(e)[:160]}, desc)
+                    break
+                rp_ = relative_permeabilities(packed_, params)
+                if any(not np.array_equal(np.asarray(rv_[n_]), np.asarray(rp_[n_]), equal_nan=True) for n_ in NAMES):
+                    ck.violation("same-result-for-a-view-of-a-wider-array", {"hidden_fields": list(hid_)}, desc)
+                    break
+                ck.count("batches_as_views_of_wider_arrays")
+            judge_events(ck, desc)
         if kind == "records":
             # a batch in which nothing is left after the caller's own selection (cells with gas above
             # critical: none) holds no inadmissible record: accepted, and nothing comes back
@@ -401,6 +429,20 @@ def _run_case(ck, desc):
                         ck.count(f"rejections.other_batches.{type(e).__name__}")
                     else:
                         ck.violation(kind, {"accepted": desc["params"], "which": desc.get("which"), "batch": label_}, desc)
+                EVENTS.clear()
+            if kind == "reject-sum":
+                # ... also when the records are a view of a wider array whose hidden fields happen to make up for
+                # the missing / surplus saturation
+                s_ = np.asarray(desc["sats"], dtype=float).reshape(-1, 3)
+                off_ = float(np.max(np.abs(s_.sum(axis=1) - 1)))
+                worst_ = s_[int(np.argmax(np.abs(s_.sum(axis=1) - 1)))]
+                for hid_ in ((1.0 - float(worst_.sum()), 0.0), (0.0, 1.0 - float(worst_.sum()))):
+                    try:
+                        relative_permeabilities(_records_inside_a_wider_array(desc["sats"], desc.get("order", 0), hid_), params)
+                    except Exception as e:  # noqa: BLE001
+                        ck.count(f"rejections.views_of_wider_arrays.{type(e).__name__}")
+                    else:
+                        ck.violation(kind, {"accepted": desc["params"], "off": off_, "records": "multi-field view of a wider record array", "hidden_fields": list(hid_)}, desc)
                 EVENTS.clear()
             try:
                 relative_permeabilities(_records(desc["sats"], desc.get("order", 0)), params)
